@@ -26,11 +26,13 @@ HERE = os.path.dirname(os.path.abspath(__file__))
 sys.path.insert(0, HERE)
 import dotleg  # noqa: E402  (readers created with SQFS_DIR_READER_DOT_ENTRIES: props/C10/dotleg.py)
 import sizeleg  # noqa: E402  (images with valid streams that expand to another size than expected: props/C10/sizeleg.py)
+import errleg  # noqa: E402  (hostile streams aimed at each decoder's error exits + repeated failing queries: props/C10/errleg.py)
 import xfineleg  # noqa: E402  (the fine-grained xattr reader API: crafted xattr sections + op generators: props/C10/xfineleg.py)
 LEVEL = "proof"
 ENV = dict(os.environ, ASAN_OPTIONS="detect_leaks=0:allocator_may_return_null=1:max_allocation_size_mb=3000",
            UBSAN_OPTIONS="print_stacktrace=1")
 U64 = (1 << 64) - 1
+REPEAT_P = float(os.environ.get("C10_REPEAT_P", "0.12"))   # gen_ops: probability of executing a query again (0 = the generator as it was)
 
 
 def _asan_env(extra):
@@ -469,14 +471,23 @@ def gen_ops(rnd, f, n, meta_only=False, with_L=True):
             return ["L %d %d" % (s.get("frag_table_start", U64), rnd.choice([cnt, cnt, max(0, cnt - 1), 0, 1, cnt + 1]))]
         return ["I %d" % rnd.choice(refs)]
 
+    recent = []
     while len(ops) < n:
         r = rnd.random()
         if meta_only or r < 0.25:
-            ops += meta_op()
+            chunk = meta_op()
         elif r < 0.5:
-            ops += raw_data_ops(rnd, f)
+            chunk = raw_data_ops(rnd, f)
         else:
-            ops += api_op()
+            chunk = api_op()
+        ops += chunk
+        # the SAME query again -- two / three times in a row, and once more after other ops: a failing call that leaves
+        # something behind in a shared sub-object (compressor, file, table) shows when the identical call is repeated
+        if REPEAT_P and rnd.random() < REPEAT_P:
+            ops += chunk * rnd.choice([1, 1, 2])
+        recent.append(chunk)
+        if REPEAT_P and rnd.random() < REPEAT_P * 0.7:
+            ops += rnd.choice(recent[-12:])
     return ops
 
 
@@ -757,6 +768,8 @@ def run(ctx):
                     "ASan/UBSan verdict on the harness runs; ASan's allocator options (quarantine_size_mb, max_malloc_fill_size, "
                     "malloc_fill_byte) as the means to make uninitialised / recycled heap contents visible (check.py:REGIMES)",
                     "props/C10/sizeleg.py (hand-made valid streams of another size than expected: Python zlib/lzma, system liblz4/libzstd via ctypes)",
+                    "props/C10/errleg.py (hand-made hostile streams: xz block/stream header edits with the CRCs fixed up, zlib/deflate bit patterns, "
+                    "lz4 token sequences, zstd frame headers written by hand around real blocks; Python zlib/lzma, system libzstd via ctypes)",
                     "props/C10/gen_c10.c: translator meta_reader.c/block.h -> coq/C10/GenC10.v (regenerated on every run)",
                     "props/C10/xfineleg.py (writer of the xattr section of the crafted image; op generators of the fine-grained xattr API); "
                     "h_reader.c's bookkeeping of the cursor-defining prefix (xpre) that the fresh mode replays"]
@@ -897,6 +910,28 @@ def run(ctx):
                     cases.append(Case("%s-a%d" % (nm, k), p, sizeleg.aimed_ops(rnd, sinfo, 90 if quick else 200), "sizemis"))
                 cases.append(Case("%s-h" % nm, p, gen_ops(rnd, f, 100 if quick else 200), "sizemis"))
 
+        # --- hostile streams aimed at each decoder's error exits (memory limit, window, dictionary, check type, mid-block
+        #     stop ...), every failing query repeated on the same readers and followed by reads of good blocks ---
+        err_combos = [("xz", 4096), ("gzip", 4096), ("zstd", 4096), ("lz4", 4096)]
+        if not quick:
+            err_combos += [("xz", 8192), ("gzip", 16384), ("zstd", 8192), ("lz4", 8192), ("xz", 65536), ("zstd", 131072)]
+        for ci, (comp, bs) in enumerate(err_combos):
+            nm = "err%d_%s" % (ci, comp)
+            try:
+                data, einfo = errleg.build_image(rnd, comp, bs)
+            except Exception as e:
+                ctx.violation("machinery:err-leg", "cannot build the hostile-stream image (%s, %d): %r" % (comp, bs, e),
+                              dict(kind="machinery", detail=repr(e)), no_input=True)
+                continue
+            p = os.path.join(ctx.scratch, nm + ".sqfs")
+            open(p, "wb").write(data)
+            f = image_facts(data)
+            for k, ops in enumerate(errleg.corpus_ops(einfo)):
+                cases.append(Case("%s-c%d" % (nm, k), p, ops, "errpath"))
+            for k in range(2 if quick else 8):
+                cases.append(Case("%s-a%d" % (nm, k), p, errleg.aimed_ops(rnd, einfo, 120 if quick else 250), "errpath"))
+            cases.append(Case("%s-h" % nm, p, gen_ops(rnd, f, 80 if quick else 200), "errpath"))
+
     ctx.log("%d cases" % len(cases))
     dist = {}
     reported = set()
@@ -990,6 +1025,17 @@ def run(ctx):
     ctx.coverage["xattr_fine_api_ops"] = stats.get("fine_ops", 0)
     ctx.coverage["xattr_cursor_ops_not_compared_with_model_after_alloc_failure"] = stats.get("kv_desync_skipped", 0)
     ctx.coverage["distribution"] = dist
+    rep_imm = rep_any = 0
+    for case in cases:
+        seen = set()
+        for i, o in enumerate(case.ops):
+            if o.startswith("M "):
+                continue
+            rep_imm += i > 0 and case.ops[i - 1] == o
+            rep_any += o in seen
+            seen.add(o)
+    ctx.coverage["ops_identical_to_the_previous_op"] = rep_imm
+    ctx.coverage["ops_identical_to_an_earlier_op"] = rep_any
     ctx.coverage["rule"] = ("seeded op lists (seed %d) over crafted Builder images, gensquashfs images (gzip/xz/lz4/zstd%s; fragments, sparse, "
                             "duplicates, xattrs incl. out-of-line values, ext dirs) and bit-flipped variants; ops = raw meta reader "
                             "seek/read/get_position, get_inode (valid/invalid refs, A;B(bad);A patterns), readdir with interleaved cursors, "
@@ -1008,7 +1054,13 @@ def run(ctx):
                             "each other and with the other readers, on a Builder image with a hand-written xattr section (600 sets, 2 descriptor "
                             "blocks, ~18 key/value blocks, shared out-of-line values backward/forward, hostile entries), its bit-flipped variants, "
                             "and the gensquashfs images; fresh side = a new reader that replays only the cursor-defining calls since the last "
-                            "successful seek_kv (never the lookups, copies, re-loads), model side = XFineModel.xf_step"
+                            "successful seek_kv (never the lookups, copies, re-loads), model side = XFineModel.xf_step.  "
+                            "Error-exit leg (props/C10/errleg.py): Builder images (gzip/xz/lz4/zstd) with 17-44 hand-made hostile streams per codec "
+                            "(xz dictionary above the memory limit, check ids, trailing bytes; gzip mid-block truncation, preset dictionary, bad "
+                            "block type / distance / window; lz4 overruns; zstd window descriptors up to the largest, dictionary id, content size, "
+                            "checksum, skippable frames) as only / middle data block, fragment block and metadata block; every failing query two and "
+                            "three times in a row, after good blocks, after other failures; good blocks re-read after each failure.  General op "
+                            "lists repeat a query immediately (12 %%) and later (8 %%)"
                             % (ctx.seed, "" if ctx.tier == "quick" else "/lzma"))
     ctx.add_samples(samples)
 
